@@ -992,7 +992,11 @@ func genC04(r *simrt.Rand, tier string) any {
 			}
 			sz, md := uint64(r.Int(50)), uint32(r.Int(0o1000))
 			sc.Faults = append(sc.Faults, simfs.Fault{Op: []string{"Chmod", "Chown", "Chtimes"}[r.Int(3)], Nth: 1 + r.Int(2), Kind: "eio"})
-			sc.Ops = append(sc.Ops, Op{Op: "LOOKUP", H: dh, Name: fp[strings.LastIndexByte(fp, '/')+1:]}, Op{Op: "SETATTR", H: fh, SA: SA{Size: &sz, Mode: &md, Mtime: 1}},
+			sa := SA{Size: &sz, Mode: &md, Mtime: 1}
+			if r.Pct(50) {
+				sa.Size = nil // no truncation step (which drops the cached attributes on its own)
+			}
+			sc.Ops = append(sc.Ops, Op{Op: "LOOKUP", H: dh, Name: fp[strings.LastIndexByte(fp, '/')+1:]}, Op{Op: "SETATTR", H: fh, SA: sa},
 				Op{Op: "LOOKUP", H: dh, Name: fp[strings.LastIndexByte(fp, '/')+1:]}, Op{Op: "GETATTR", H: fh}, Op{Op: "READDIRPLUS", H: dh, Count: 8192})
 		}
 	}
@@ -1024,7 +1028,7 @@ func mixGen(own func(*simrt.Rand, string) any, ownPct int, kind string) func(*si
 func init() {
 	Register(&Prop{
 		ID: "C04", Level: "exploration",
-		Rule:    "one case = a sequential history over a tree with files, directories and symlinks (incl. dangling): SETATTR with arbitrary 12-bit modes and type bits in the mode word, GETATTR, LOOKUP, READDIRPLUS, ACCESS, READ, READLINK, WRITE, namespace operations, clock advances, per-run cache configuration, in a quarter of these with 1-3 injected backend errors / short transfers as in C01 (the faulted request is exempt, every later reply is judged exactly) (60%), or one of the C01/C02/C03 workloads (40%); monitor on every attribute block of every reply (fattr3, post_op_attr, wcc after, entryplus3): type and fileid constant while the path is unchanged; type, size and permission bits equal to the backend lstat at reply time; non-trivial = at least one operation executed; distinct by event digest",
+		Rule:    "one case = a sequential history over a tree with files, directories and symlinks (incl. dangling): SETATTR with arbitrary 12-bit modes and type bits in the mode word, GETATTR, LOOKUP, READDIRPLUS, ACCESS, READ, READLINK, WRITE, namespace operations, clock advances, per-run cache configuration, in a quarter of these with 1-3 injected backend errors / short transfers as in C01 (the faulted request is exempt, every later reply is judged exactly; half of these end with the half-failed-SETATTR motif: LOOKUP, a SETATTR of mode and times, with or without size, whose chmod/chown/chtimes fails, then LOOKUP, GETATTR and READDIRPLUS of the object) (60%), or one of the C01/C02/C03 workloads (40%); monitor on every attribute block of every reply (fattr3, post_op_attr, wcc after, entryplus3): type and fileid constant while the path is unchanged; type, size and permission bits equal to the backend lstat at reply time; non-trivial = at least one operation executed; distinct by event digest",
 		Gen:     mixGen(genC04, 60, "C04"),
 		New:     func() any { return &SeqScn{} },
 		Run:     runSeq("C04."),
